@@ -30,6 +30,7 @@ ASSUMPTIONS = ["the wrapped callable is modelled by prophecy functions val(k)/ex
                "time.sleep is modelled as a ghost log entry; it does not raise"]
 NOT_COVERED = ["termination / wall-clock duration of sleep"]
 BUDGET = {"quick": 20, "thorough": 60}
+REPLAY_OUT_OF_REACH = True
 
 I = z3.IntSort()
 isret = z3.Function("o_isret", I, z3.BoolSort())
@@ -319,7 +320,7 @@ def replay(ob, res):
     outcome sequences of the statement's quantifier (attempts 1..3, exception hierarchy, all filter
     subsets) on the real class for a trace that violates the same specification."""
     from pyvc import replay as rp
-    if "_retry" not in ob.id and "__getattr__" not in ob.id:
+    if "_retry" not in ob.id and "__getattr__" not in ob.id and "out-of-reach" not in ob.id and "bounded-exploration" not in ob.id:
         return {"reproduced": False, "note": "constructor case obligation: see obligation id for the rejected/accepted configuration"}
     obs = rp.run_real(SNIPPET, {"max_attempts": 3}, timeout=300)
     from pyvc.replay import failing_of
